@@ -289,13 +289,20 @@ impl ExternalFileManager {
             .paths
             .into_file_path_parts(vault_id, secret_id, file_name);
 
-        vfs::remove_file(path).await?;
+        // The file may not have been downloaded to this device yet
+        if vfs::try_exists(&path).await? {
+            vfs::remove_file(path).await?;
+        }
 
         // Prune empty directories
-        if secret_path.read_dir()?.next().is_none() {
+        if vfs::try_exists(&secret_path).await?
+            && secret_path.read_dir()?.next().is_none()
+        {
             vfs::remove_dir(secret_path).await?;
         }
-        if vault_path.read_dir()?.next().is_none() {
+        if vfs::try_exists(&vault_path).await?
+            && vault_path.read_dir()?.next().is_none()
+        {
             vfs::remove_dir(vault_path).await?;
         }
 
@@ -377,22 +384,26 @@ impl ExternalFileManager {
             file_name,
         );
 
-        if let Some(parent) = new_path.parent() {
-            if !vfs::try_exists(parent).await? {
-                vfs::create_dir_all(parent).await?;
+        // The file may not have been downloaded to this device yet
+        if vfs::try_exists(&old_path).await? {
+            if let Some(parent) = new_path.parent() {
+                if !vfs::try_exists(parent).await? {
+                    vfs::create_dir_all(parent).await?;
+                }
             }
-        }
 
-        vfs::rename(old_path, new_path).await?;
+            vfs::rename(old_path, new_path).await?;
+        }
 
         // Prune empty directories
-        let secret_dir_is_empty =
-            old_secret_path.read_dir()?.next().is_none();
-        if secret_dir_is_empty {
+        if vfs::try_exists(&old_secret_path).await?
+            && old_secret_path.read_dir()?.next().is_none()
+        {
             vfs::remove_dir(old_secret_path).await?;
         }
-        let vault_dir_is_empty = old_vault_path.read_dir()?.next().is_none();
-        if vault_dir_is_empty {
+        if vfs::try_exists(&old_vault_path).await?
+            && old_vault_path.read_dir()?.next().is_none()
+        {
             vfs::remove_dir(old_vault_path).await?;
         }
 
